@@ -20,6 +20,7 @@ import (
 	"fmt"
 	"os"
 	"os/exec"
+	"path/filepath"
 	"runtime"
 	"runtime/debug"
 	"runtime/pprof"
@@ -219,6 +220,9 @@ type workerOut struct {
 	States  map[string]int `json:"states"`
 	Viols   []*foundViol   `json:"viols"`
 	Samples []seqCase      `json:"samples"`
+
+	QueryCases   int         `json:"query_cases"`
+	QuerySamples []queryCase `json:"query_samples"`
 }
 
 func workerMain() {
@@ -258,6 +262,25 @@ func workerMain() {
 		}
 		if i%4999 == shard {
 			out.Samples = append(out.Samples, k)
+		}
+	}
+	// part 3: query cases (indices continue after the sequence cases)
+	qc := queryCases(os.Getenv("C14_TIER") != "thorough")
+	for j, k := range qc {
+		if j%of != shard {
+			continue
+		}
+		dir := filepath.Join(core.Root, ".work", "c14", "run", fmt.Sprintf("q-%d-%d", os.Getpid(), j))
+		r := runQuery(k, dir)
+		out.QueryCases++
+		for _, c := range r.Classes {
+			out.Classes[c]++
+		}
+		for _, v := range r.Viols {
+			vs.add(len(cases)+j, v.Sig, k, v.Detail, 1)
+		}
+		if j == 1 {
+			out.QuerySamples = append(out.QuerySamples, k)
 		}
 	}
 	out.Viols = vs.sorted()
@@ -309,6 +332,8 @@ func runWorkers(tier string) workerOut {
 		}
 		total.Viols = append(total.Viols, o.Viols...)
 		total.Samples = append(total.Samples, o.Samples...)
+		total.QueryCases += o.QueryCases
+		total.QuerySamples = append(total.QuerySamples, o.QuerySamples...)
 	}
 	return total
 }
@@ -344,6 +369,13 @@ func main() {
 			run.ReplayCase(&k)
 			installCallback()
 			for _, v := range runSequence(k).Viols {
+				run.Report(v.Sig, k, v.Detail)
+			}
+		case "query":
+			var k queryCase
+			run.ReplayCase(&k)
+			installCallback()
+			for _, v := range runQuery(k, filepath.Join(run.WorkDir(), "q-replay")).Viols {
 				run.Report(v.Sig, k, v.Detail)
 			}
 		default:
@@ -391,11 +423,14 @@ func main() {
 	t1 := time.Since(t0)
 	// ------------------------------------------------ part 2
 	w := runWorkers(run.Tier)
-	run.Notes = append(run.Notes, fmt.Sprintf("wall: part 1 %.1fs, part 2 %.1fs (informational)", t1.Seconds(), (time.Since(t0) - t1).Seconds()))
+	run.Notes = append(run.Notes, fmt.Sprintf("wall: part 1 %.1fs, part 2 %.1fs (informational)", t1.Seconds(), (time.Since(t0)-t1).Seconds()))
 	for _, f := range w.Viols {
-		var k seqCase
+		var k interface{}
 		json.Unmarshal(f.Case, &k)
 		viols.add(base+f.Index, f.Sig, k, f.Detail, f.Count)
+	}
+	for _, q := range w.QuerySamples {
+		samples.Add(q)
 	}
 	for i, s := range w.Samples {
 		if i < 6 {
@@ -412,8 +447,8 @@ func main() {
 	run.Finish(core.Coverage{
 		"states":                        len(w.States) + tallyClasses.Len(),
 		"transitions":                   tallyCases + w.Execs,
-		"traces_validated_against_impl": tallyCases + w.Cases,
-		"evaluations":                   tallyCases + w.Cases,
+		"traces_validated_against_impl": tallyCases + w.Cases + w.QueryCases,
+		"evaluations":                   tallyCases + w.Cases + w.QueryCases,
 		"distinct_nontrivial":           distinct,
 		"rule": "part 1: for each validator power vector, EVERY ordered list of length 0.." + strconv.Itoa(maxLen) + " over the entry kinds {valid signature of validator i (one per validator, incl. the zero-power one), W0/W1 = validator's key with its signature over a different message, N = genuine signature of a non-validator key, X01 = V0's key with V1's signature, PS/PL = V0's key one byte short/long, SS/SL = V0's signature halved/one byte long, E = empty entry}, duplicates arise as repeated letters; each list is put into an add_peer request and offered to the real AdminOp.ExecTX. " +
 			"part 2: every sequence (quick: length ≤2 over the full request alphabet on both base sets, length 3 over the core alphabet on {A1,B1,C1,D0} split as 1|1|1 and as one block; thorough: length ≤3 over the full alphabet, both base sets, every composition into blocks) of requests {add, update, remove, unknown command, unknown type} × targets {new key K, validator B, signer A, zero-power D} × nonce {n−1,n,n+1} × {bound sender, other sender, second administrator} × signature lists {all, exactly 2/3, one validator ×3, foreign keys, other message} × channel {governance contract, precompile called directly with forged sender bytes} + literal replays of earlier requests; distinct_nontrivial = distinct (set, verdict, entitled power, list shape) classes of part 1 + distinct (command, channel, model verdict, implementation verdict, recorded) and block-outcome classes of part 2; states = distinct (validator set, account nonces) model states reached + tally classes",
@@ -423,6 +458,7 @@ func main() {
 		"tally_cases_by_set": perSet,
 		"tally_accepted":     tallyAccepted,
 		"sequence_cases":     w.Cases,
+		"query_cases":        w.QueryCases,
 		"sequence_request_executions_all_replicas": w.Execs,
 		"sequence_blocks_all_replicas":             w.Blocks,
 		"request_alphabet":                         names,
